@@ -29,8 +29,11 @@ WHY = [
     ("C15.functor_context_dangling_manager", "a function's private context keeps a raw pointer to the declaring context's FunctorManager; two lifetime orders were repaired (137dbae, 4769647), the remaining one (executable outlives the purge of its context) needs shared ownership of the manager"),
     ("C15.leak_", "parser error paths leak already-built sub-expressions (argument evaluation order + throwing assertType): the same pattern exists in every binary-operator production; a systematic fix (owning pointers) is larger than a patch"),
     ("C17.moved_from_handle_null_deref", "bloc::Complex's move constructor leaves a null counter that the other members dereference; only reachable through C++ API misuse patterns inside the library's own Value moves, which never use the moved-from handle: recorded, not script-reachable"),
-    ("C18.utf8_at_unchecked", "utf8.at(pos) indexes without a bound check; a repair is one line, deferred only because the csv/utf8 models and proofs were being extended when the repair round ran — see notes"),
-    ("C18.csv_next_emptyback", "deserialize_next on an empty field table; same remark as above"),
+    ("C18.sqlite_bool_as_integer", "SQLite has no boolean storage class: the type cannot be preserved without a schema convention"),
+    ("C18.sqlite_nan_as_null", "documented SQLite behaviour (NaN is stored as NULL)"),
+    ("C18.sqlite_empty_bytes_as_null", "sqlite3_bind_blob with a null pointer binds NULL; binding a zero-length blob instead (sqlite3_bind_zeroblob) is a small change but alters what existing databases receive — left to the maintainer"),
+    ("C18.sqlite_unbound_item_keeps_old_binding", "an item of a type that cannot be bound is skipped silently; raising an error is a behaviour change for existing scripts"),
+    ("C18.file_update_without_reposition", "needs a last-operation flag in the file handle and an fseek at every direction switch (C11 7.21.5.3): more than a local patch; observed misbehaviour depends on glibc buffering"),
     ("C18.utf8_nul_dropped", "code point 0 doubles as the decoder's 'discard' marker: a repair changes the decoder's internal protocol"),
     ("C19.returned_table_bytes_not_printed", "bloc FILE prints nothing for a returned table / bytes / object: what to print is a design decision"),
     ("C19.interactive_continues_after_return", "interactive mode deliberately (bloc_reset_stop) keeps reading after a top-level return; batch stops: documented difference rather than a slip?"),
